@@ -181,6 +181,11 @@ def tt_dimscheck(  # noqa: PLR0912
         raise ValueError(
             "Negative dims aren't allowed in pyttb, see exclude_dims argument instead"
         )
+    # Out of range or repeated modes would silently select the wrong multiplicands
+    if np.any(dim_array >= N):
+        raise ValueError(f"Dims provided: {dim_array} are out of valid range [0,{N})")
+    if len(np.unique(dim_array)) != len(dim_array):
+        raise ValueError(f"Dims provided: {dim_array} contain repeated modes")
 
     # Save dimensions of dims
     P = len(dim_array)
